@@ -20,7 +20,7 @@ KINDS = ("boxcar", "gaussian", "lorentzian")
 
 
 def REQUIRED(tier):
-    return ["responses_compared", "argmax_checks", "invariance_checks", "boxcar_recoveries", "kind:boxcar", "kind:gaussian", "kind:lorentzian", "len:not_fft_good", "pulse:wraps_around_end", "kernel_direct_unsorted_bank", "long_series", "regime:uncentred_data_with_baseline", "invariance:offset_with_centring_off", "construction_after_refused_one", "regime:baseline_1e5_times_noise", "input_buffer_reused_after_construction", "bank_with_template_as_wide_as_data", "fullwidth_template_present", "held_filter_checks", "plot_then_read_checks", "regime:series_over_2^17_bins"]
+    return ["responses_compared", "argmax_checks", "invariance_checks", "boxcar_recoveries", "kind:boxcar", "kind:gaussian", "kind:lorentzian", "len:not_fft_good", "pulse:wraps_around_end", "kernel_direct_unsorted_bank", "long_series", "regime:uncentred_data_with_baseline", "invariance:offset_with_centring_off", "construction_after_refused_one", "regime:baseline_1e5_times_noise", "input_buffer_reused_after_construction", "bank_with_template_as_wide_as_data", "fullwidth_template_present", "held_filter_checks", "plot_then_read_checks", "regime:series_over_2^17_bins", "argmax:wide_pulse_in_dense_bank"]
 
 
 def cases(tier, seed):
@@ -339,6 +339,11 @@ def _fullwidth(case, ctx, rng):
     spacing = [1.0, 1.5, 1.0, 2.0][case["seed"] % 4]     # spacing 1 steps through every width up to the data length
     x = rng.normal(size=n).astype(np.float32)
     w, pos = int(rng.integers(1, max(2, n // 4))), int(rng.integers(0, n))
+    if case["seed"] % 4 == 2:          # a dense bank of more than 32 widths whose best match is one of the wide ones
+        n = int(rng.choice([96, 128]))
+        x = rng.normal(size=n).astype(np.float32)
+        w, pos = int(rng.integers(36, 56)), int(rng.integers(0, n))
+        ctx.count("argmax:wide_pulse_in_dense_bank")
     x[(pos + np.arange(w)) % n] += np.float32(rng.uniform(5, 12))
     one = dict(case, params={"n": n, "nbins_max": n, "spacing": spacing, "pos": pos, "w": w})
     ctx.evaluated(); ctx.count("bank_with_template_as_wide_as_data"); ctx.count("kind:boxcar")
@@ -368,6 +373,12 @@ def _fullwidth(case, ctx, rng):
     ctx.count("argmax_checks")
     if float(mf.snr) != float(np.asarray(mf.convs).max()) or (mf.peak_bin != t0 and convs[k0, t0] != convs[[i for i, t in enumerate(mf.temp_bank) if t is mf.best_temp][0], mf.peak_bin]):
         ctx.violation("argmax:boxcar:template-as-wide-as-data", f"snr={mf.snr!r} peak_bin={mf.peak_bin}; max response {convs.max()!r} at template {k0} bin {t0}", one)
+        return
+    kb = [i for i, t in enumerate(mf.temp_bank) if t is mf.best_temp]
+    if len(mf.temp_bank) > 32:
+        ctx.count("argmax:bank_of_more_than_32_templates")
+    if not kb or convs[kb[0], mf.peak_bin] != convs.max():      # the reported template is the one whose response holds the maximum (ties aside)
+        ctx.violation("argmax:best-template:dense-bank", f"best_temp is template {kb[0] if kb else None} (width {mf.best_temp.width}) whose response at the peak bin is not the maximum, held by template {k0} (width {mf.temp_bank[k0].width}) of {len(mf.temp_bank)}", one)
         return
     ctx.nontrivial_case(one)
 
